@@ -871,6 +871,7 @@ def run_shard(ctx):
                     check_one(env, name, s, "cross")
                     res.count("cross_talk_calls")
             res.hook("cross_talk_strings")
+        platform_default_hosts(ctx)
     finally:
         env.locale.setlocale(env.locale.LC_ALL, prev_locale)
     res.info["bounds"] = {
@@ -885,6 +886,75 @@ def run_shard(ctx):
         for n in REGEX_TYPES}
     res.info["random_strings_per_type"] = RANDOM[tier]
     res.info["stock_datatypes_covered"] = sorted(env.conv)
+
+
+PLATFORMS = [("linux", ""), ("darwin", ""), ("freebsd14", ""),
+             ("sunos5", ""), ("aix", ""), ("win32", "localhost"),
+             ("emscripten", ""), ("wasi", "")]
+
+
+def platform_default_hosts(ctx, only=None):
+    """The documented default host of inet-address (and socket-address) is
+    'localhost' on Windows and '' everywhere else; it is computed when the
+    module is executed.  A private copy of the real datatypes.py is executed
+    once per platform name (sys.platform patched for the duration) and asked
+    for host-less values."""
+    import importlib.util
+    import sys
+    import ZConfig.datatypes as real
+    res = ctx.res
+    for pi, (plat, want_host) in enumerate(PLATFORMS):
+        if only is not None and plat != only:
+            continue
+        if only is None and not ctx.mine(pi):
+            continue
+        spec = importlib.util.spec_from_file_location(
+            "zcv_private_datatypes_%s" % plat, real.__file__)
+        mod = importlib.util.module_from_spec(spec)
+        saved = sys.platform
+        sys.platform = plat
+        try:
+            spec.loader.exec_module(mod)
+        finally:
+            sys.platform = saved
+        reg = mod.Registry()
+        for name, value, want in (
+                ("inet-address", "8080", (want_host, 8080)),
+                ("inet-address", ":8080", (want_host, 8080)),
+                ("inet-address", "Host:80", ("host", 80)),
+                ("inet-binding-address", "8080", ("", 8080)),
+                ("inet-connection-address", "8080", ("127.0.0.1", 8080))):
+            res.evaluations += 1
+            res.count("platform_default_host_cases")
+            try:
+                got = reg.get(name)(value)
+            except Exception as e:  # noqa
+                got = "%s: %s" % (type(e).__name__, e)
+            if got != want:
+                res.violate("default-host-differs",
+                            {"op": "platform", "platform": plat,
+                             "type": name, "s": value}, list(want),
+                            list(got) if isinstance(got, tuple) else got,
+                            detail="sys.platform=%r %s(%r) -> %r, "
+                            "documented %r" % (plat, name, value, got, want),
+                            vsig="platform|%s" % name)
+        # socket-address builds on the same default
+        try:
+            sa = reg.get("socket-address")("8080")
+            got = sa.address
+        except Exception as e:  # noqa
+            got = "%s: %s" % (type(e).__name__, e)
+        res.evaluations += 1
+        res.count("platform_default_host_cases")
+        if got != (want_host, 8080):
+            res.violate("default-host-differs",
+                        {"op": "platform", "platform": plat,
+                         "type": "socket-address", "s": "8080"},
+                        [want_host, 8080],
+                        list(got) if isinstance(got, tuple) else got,
+                        detail="sys.platform=%r socket-address('8080')"
+                        ".address -> %r" % (plat, got),
+                        vsig="platform|socket-address")
 
 
 def ctx_free_rng(ctx, *salt):
@@ -913,6 +983,8 @@ def replay(ctx, case):
     env = Env(ctx)
     if case.get("op") == "get":
         return          # Env() re-ran the registry checks
+    if case.get("op") == "platform":
+        return platform_default_hosts(ctx, only=case["platform"])
     prev = env.locale.setlocale(env.locale.LC_ALL)
     try:
         check_one(env, case["type"], case["s"], "replay")
